@@ -226,17 +226,16 @@ Qed.
 (* the scanner's final state, and the states its token's start and end were read from, are tracked *)
 Definition tok_tracked (s : lx) (r : token * lx) : Prop :=
   tracks s (snd r) /\
-  (exists sa, tracks s sa /\ tk_pos (fst r) = position sa) /\
-  (exists sb, tracks s sb /\ tk_end (fst r) = position sb).
+  exists sa sb, tracks s sa /\ tracks sa sb /\ tracks sb (snd r) /\ tk_pos (fst r) = position sa /\ tk_end (fst r) = position sb.
 
-Lemma tt_intro s t s' sa sb : tracks s s' -> tracks s sa -> tracks s sb ->
-  tk_pos t = position sa -> tk_end t = position sb -> tok_tracked s (t, s').
-Proof. intros A B C D E. split; [exact A|]. split; [exists sa|exists sb]; auto. Qed.
+Lemma tt_intro s t s' sa sb : tracks s s' -> tracks s sa -> tracks sa sb ->
+  tk_pos t = position sa -> tk_end t = position sb -> tracks sb s' -> tok_tracked s (t, s').
+Proof. intros A B C D E F. split; [exact A|]. exists sa, sb. auto. Qed.
 
 Lemma tt_shift s0 s r : tracks s0 s -> tok_tracked s r -> tok_tracked s0 r.
 Proof.
-  intros T (A & (sa & B & Pa) & (sb & C & Pb)). split; [eapply tracks_trans; eassumption|].
-  split; [exists sa|exists sb]; (split; [eapply tracks_trans; eassumption|assumption]).
+  intros T (A & sa & sb & B & C & F & Pa & Pb). split; [eapply tracks_trans; eassumption|].
+  exists sa, sb. split; [eapply tracks_trans; eassumption|auto].
 Qed.
 
 Lemma digits_plain c : (isDigitB c || (c =? 45) || (c =? 47) || (c =? 46)) = true -> plain_byte c = true.
@@ -282,7 +281,7 @@ Proof.
   assert (T : tracks s (if (peek (consume n cols (advance s)) =? 41) && negb (match rest (consume n cols (advance s)) with [] => true | _ => false end)
                         then advance (consume n cols (advance s)) else consume n cols (advance s)))
     by (eapply tracks_trans; [exact T1|]; eapply tracks_trans; [exact T2|exact T3]).
-  eapply tt_intro; try reflexivity; [exact T|apply tracks_refl|exact T].
+  eapply tt_intro; try reflexivity; [exact T|apply tracks_refl|exact T|apply tracks_refl].
 Qed.
 
 Lemma tt_scanQuotedCommodity s : peek s <> 10 -> tok_tracked s (scanQuotedCommodity s).
@@ -295,7 +294,7 @@ Proof.
   assert (T : tracks s (if (peek (consume n cols (advance s)) =? 34) && negb (match rest (consume n cols (advance s)) with [] => true | _ => false end)
                         then advance (consume n cols (advance s)) else consume n cols (advance s)))
     by (eapply tracks_trans; [exact T1|]; eapply tracks_trans; [exact T2|exact T3]).
-  eapply tt_intro; try reflexivity; [exact T|apply tracks_refl|exact T].
+  eapply tt_intro; try reflexivity; [exact T|apply tracks_refl|exact T|apply tracks_refl].
 Qed.
 
 Lemma tt_scanComment s : peek s <> 10 -> tok_tracked s (scanComment s).
@@ -305,14 +304,14 @@ Proof.
   assert (T1 : tracks s (advance s)) by (apply tracks_advance; exact H).
   assert (T2 : tracks (advance s) (consume n cols (advance s))) by (eapply tracks_span_until; [|exact E]; reflexivity).
   assert (T : tracks s (consume n cols (advance s))) by (eapply tracks_trans; eassumption).
-  eapply tt_intro; try reflexivity; [exact T|apply tracks_refl|exact T].
+  eapply tt_intro; try reflexivity; [exact T|apply tracks_refl|exact T|apply tracks_refl].
 Qed.
 
 Lemma tt_scanText s : tok_tracked s (scanText s).
 Proof.
   unfold scanText. destruct (span_until (fun c => (c =? 10) || (c =? 59) || (c =? 124)) (rest s) 0) as [n cols] eqn:E.
   assert (T : tracks s (consume n cols s)) by (eapply tracks_span_until; [|exact E]; reflexivity).
-  eapply tt_intro; try reflexivity; [exact T|apply tracks_refl|exact T].
+  eapply tt_intro; try reflexivity; [exact T|apply tracks_refl|exact T|apply tracks_refl].
 Qed.
 
 Lemma tt_scanAccount s : tok_tracked s (scanAccount s).
@@ -321,7 +320,7 @@ Proof.
   assert (T : tracks s (consume n cols s)).
   { destruct (account_span_walk _ _ _ _ _ (lline s) (lcol s) E ltac:(lia)) as [W L].
     exists n. unfold consume. cbn [rest lpos lline lcol]. split; [reflexivity|]. split; [reflexivity|exact W]. }
-  eapply tt_intro; try reflexivity; [exact T|apply tracks_refl|exact T].
+  eapply tt_intro; try reflexivity; [exact T|apply tracks_refl|exact T|apply tracks_refl].
 Qed.
 
 Lemma number_span_plain_n : forall n l h, (length l <= n)%nat ->
@@ -352,7 +351,7 @@ Proof.
   unfold scanNumber. destruct (number_span_plain_n _ (rest s) false (Nat.le_refl _)) as [A B].
   assert (T : tracks s (consume (number_span (rest s) false) (N.of_nat (number_span (rest s) false)) s))
     by (apply tracks_consume_plain; assumption).
-  eapply tt_intro; try reflexivity; [exact T|apply tracks_refl|exact T].
+  eapply tt_intro; try reflexivity; [exact T|apply tracks_refl|exact T|apply tracks_refl].
 Qed.
 
 Lemma tt_scanCurrencySymbol s : rest s <> [] -> peek s <> 10 -> tok_tracked s (scanCurrencySymbol s).
@@ -362,7 +361,7 @@ Proof.
   { destruct (rest s) as [|c0 r] eqn:E; [contradiction|]. unfold peek in H. rewrite E in H.
     exists (snd (decode (c0 :: r))). unfold consume. cbn [rest lpos lline lcol]. rewrite E.
     split; [reflexivity|]. split; [reflexivity|]. apply walk_rune. exact H. }
-  eapply tt_intro; try reflexivity; [exact T|apply tracks_refl|exact T].
+  eapply tt_intro; try reflexivity; [exact T|apply tracks_refl|exact T|apply tracks_refl].
 Qed.
 
 Lemma peek_after s c r : rest s = c :: r -> peek s = c.
@@ -371,32 +370,32 @@ Proof. intro E. unfold peek. rewrite E. reflexivity. Qed.
 Lemma tt_scanAt s : peek s <> 10 -> tok_tracked s (scanAt s).
 Proof.
   intro H. unfold scanAt. assert (T1 : tracks s (advance s)) by (apply tracks_advance; exact H).
-  destruct (rest (advance s)) as [|c r] eqn:E; [eapply tt_intro; try reflexivity; [exact T1|apply tracks_refl|exact T1]|].
+  destruct (rest (advance s)) as [|c r] eqn:E; [eapply tt_intro; try reflexivity; [exact T1|apply tracks_refl|exact T1|apply tracks_refl]|].
   destruct (c =? 64) eqn:E64.
   - apply N.eqb_eq in E64. subst c.
     assert (T2 : tracks s (advance (advance s))).
     { eapply tracks_trans; [exact T1|]. apply tracks_advance. rewrite (peek_after _ _ _ E). lia. }
-    eapply tt_intro; try reflexivity; [exact T2|apply tracks_refl|exact T2].
+    eapply tt_intro; try reflexivity; [exact T2|apply tracks_refl|exact T2|apply tracks_refl].
   - assert (X : match c with 64 => True | _ => False end -> False).
     { destruct c as [|p]; [auto|]. do 7 (try (destruct p as [p|p|]; auto)). cbn in E64. discriminate. }
-    revert X. clear E64. destruct c as [|p]; intro X; [eapply tt_intro; try reflexivity; [exact T1|apply tracks_refl|exact T1]|].
-    do 7 (try (destruct p as [p|p|])); try (eapply tt_intro; try reflexivity; [exact T1|apply tracks_refl|exact T1]).
+    revert X. clear E64. destruct c as [|p]; intro X; [eapply tt_intro; try reflexivity; [exact T1|apply tracks_refl|exact T1|apply tracks_refl]|].
+    do 7 (try (destruct p as [p|p|])); try (eapply tt_intro; try reflexivity; [exact T1|apply tracks_refl|exact T1|apply tracks_refl]).
     exfalso. apply X. exact I.
 Qed.
 
 Lemma tt_scanEquals s : peek s <> 10 -> tok_tracked s (scanEquals s).
 Proof.
   intro H. unfold scanEquals. assert (T1 : tracks s (advance s)) by (apply tracks_advance; exact H).
-  destruct (rest (advance s)) as [|c r] eqn:E; [eapply tt_intro; try reflexivity; [exact T1|apply tracks_refl|exact T1]|].
+  destruct (rest (advance s)) as [|c r] eqn:E; [eapply tt_intro; try reflexivity; [exact T1|apply tracks_refl|exact T1|apply tracks_refl]|].
   destruct (c =? 61) eqn:E61.
   - apply N.eqb_eq in E61. subst c.
     assert (T2 : tracks s (advance (advance s))).
     { eapply tracks_trans; [exact T1|]. apply tracks_advance. rewrite (peek_after _ _ _ E). lia. }
-    eapply tt_intro; try reflexivity; [exact T2|apply tracks_refl|exact T2].
+    eapply tt_intro; try reflexivity; [exact T2|apply tracks_refl|exact T2|apply tracks_refl].
   - assert (X : match c with 61 => True | _ => False end -> False).
     { destruct c as [|p]; [auto|]. do 6 (try (destruct p as [p|p|]; auto)). cbn in E61. discriminate. }
-    revert X. clear E61. destruct c as [|p]; intro X; [eapply tt_intro; try reflexivity; [exact T1|apply tracks_refl|exact T1]|].
-    do 6 (try (destruct p as [p|p|])); try (eapply tt_intro; try reflexivity; [exact T1|apply tracks_refl|exact T1]).
+    revert X. clear E61. destruct c as [|p]; intro X; [eapply tt_intro; try reflexivity; [exact T1|apply tracks_refl|exact T1|apply tracks_refl]|].
+    do 6 (try (destruct p as [p|p|])); try (eapply tt_intro; try reflexivity; [exact T1|apply tracks_refl|exact T1|apply tracks_refl]).
     exfalso. apply X. exact I.
 Qed.
 
@@ -412,7 +411,7 @@ Qed.
 Lemma tt_scanNewline s r : rest s = 10 :: r -> tok_tracked s (scanNewline s).
 Proof.
   intro E. destruct (tracks_scanNewline s r E) as (T & P1 & P2). split; [exact T|].
-  split; [exists s; split; [apply tracks_refl|exact P1]|exists (snd (scanNewline s)); split; [exact T|exact P2]].
+  exists s, (snd (scanNewline s)). split; [apply tracks_refl|]. split; [exact T|]. split; [apply tracks_refl|]. split; assumption.
 Qed.
 
 Lemma tt_scanDirectiveOrAccount s : tok_tracked s (scanDirectiveOrAccount s).
@@ -442,7 +441,7 @@ Proof.
         rewrite skipn_length in H2. fold n1 in H. fold n2 in H2. lia.
       - rewrite firstn_add, forallb_app. unfold n1 at 1, n2.
         rewrite (span_while_forall isLetterB plain_byte _ letter_plain), (span_while_forall _ plain_byte _ alnum_plain). reflexivity. }
-    eapply tt_intro; try reflexivity; [exact T|apply tracks_refl|exact T].
+    eapply tt_intro; try reflexivity; [exact T|apply tracks_refl|exact T|apply tracks_refl].
 Qed.
 
 Lemma skip_spaces_plain l : (skip_spaces_n l <= length l)%nat /\ forallb plain_byte (firstn (skip_spaces_n l) l) = true.
@@ -456,7 +455,7 @@ Proof.
 Qed.
 
 Lemma tt_makeToken_after s s' ty v : tracks s s' -> tok_tracked s (makeToken ty v s', s').
-Proof. intro T. unfold makeToken. eapply tt_intro; try reflexivity; exact T. Qed.
+Proof. intro T. unfold makeToken. eapply (tt_intro s _ s' s' s'); try reflexivity; [exact T|exact T|apply tracks_refl|apply tracks_refl]. Qed.
 
 Lemma tt_scanInLine s0 : tok_tracked s0 (scanInLine s0).
 Proof.
@@ -536,21 +535,44 @@ Qed.
 Lemma st_ok_init text : st_ok text (lx_init text).
 Proof. unfold st_ok, tpos_ok, lx_init, position. cbn [tp_off tp_line tp_col lpos lline lcol rest N.to_nat skipn walk]. split; [split; [reflexivity|lia]|reflexivity]. Qed.
 
+(* offsets grow along a walk; lines never decrease; on one line columns never decrease *)
+Lemma walk_mono : forall n l skip ln c ln' c', walk l n skip ln c = Some (ln', c') ->
+  ln <= ln' /\ (ln' = ln -> c <= c').
+Proof.
+  induction n as [|n IH]; intros l skip ln c ln' c' H; cbn [walk] in H.
+  - destruct skip; [|discriminate]. inversion H; subst. split; [lia|intros _; lia].
+  - destruct l as [|c0 r]; [discriminate|]. destruct skip as [|k].
+    + destruct (c0 =? 10).
+      * apply IH in H as [A B]. split; [lia|intro E; lia].
+      * apply IH in H as [A B]. split; [exact A|intro E; specialize (B E); unfold u16len in B; destruct (65536 <=? fst (decode (c0 :: r))); lia].
+    + apply IH in H. exact H.
+Qed.
+
+Lemma tracks_mono s s' : tracks s s' -> lpos s <= lpos s' /\ lline s <= lline s' /\ (lline s' = lline s -> lcol s <= lcol s').
+Proof. intros (k & _ & P & W). apply walk_mono in W as [A B]. split; [lia|]. split; assumption. Qed.
+
+(* what is known of every token: both ends are places of the text, the start is not behind the end *)
+Definition tok_ok (text : list N) (t : token) : Prop :=
+  tpos_ok text (tk_pos t) /\ tpos_ok text (tk_end t) /\
+  tp_off (tk_pos t) <= tp_off (tk_end t) /\ tp_line (tk_pos t) <= tp_line (tk_end t) /\
+  (tp_line (tk_end t) = tp_line (tk_pos t) -> tp_col (tk_pos t) <= tp_col (tk_end t)).
+
 Theorem lex_all_positions text : forall fuel s toks, st_ok text s -> lex_all fuel s = Some toks ->
-  Forall (fun t => tpos_ok text (tk_pos t) /\ tpos_ok text (tk_end t)) toks.
+  Forall (tok_ok text) toks.
 Proof.
   induction fuel as [|fuel IH]; intros s toks Hs H; [discriminate|]. cbn [lex_all] in H.
   pose proof (tt_next s) as TT. destruct (next s) as [t s'] eqn:En.
-  destruct TT as (T & (sa & Ta & Pa) & (sb & Tb & Pb)). cbn [fst snd] in *.
-  assert (Ht : tpos_ok text (tk_pos t) /\ tpos_ok text (tk_end t)).
-  { rewrite Pa, Pb. split; [apply (st_ok_tracks text s sa Hs Ta)|apply (st_ok_tracks text s sb Hs Tb)]. }
+  destruct TT as (T & sa & sb & Ta & Tab & _ & Pa & Pb). cbn [fst snd] in *.
+  assert (Ht : tok_ok text t).
+  { unfold tok_ok. rewrite Pa, Pb. pose proof (st_ok_tracks text s sa Hs Ta) as Oa.
+    split; [apply Oa|]. split; [apply (st_ok_tracks text sa sb Oa Tab)|].
+    unfold position. cbn [tp_off tp_line tp_col]. exact (tracks_mono sa sb Tab). }
   destruct (tk_type t); try (destruct (lex_all fuel s') as [l|] eqn:El; [|discriminate]; inversion H; subst;
                              constructor; [exact Ht|apply (IH s' l (st_ok_tracks text s s' Hs T) El)]).
   inversion H; subst. constructor; [exact Ht|constructor].
 Qed.
 
 (* for every byte string: the start and the end of every token carry the line, the UTF-16 column
-   and the byte offset of one and the same place of the text, on a rune boundary *)
-Theorem lex_positions text toks : lex text = Some toks ->
-  Forall (fun t => tpos_ok text (tk_pos t) /\ tpos_ok text (tk_end t)) toks.
+   and the byte offset of one and the same place of the text, on a rune boundary, start before end *)
+Theorem lex_positions text toks : lex text = Some toks -> Forall (tok_ok text) toks.
 Proof. unfold lex. apply lex_all_positions. apply st_ok_init. Qed.
